@@ -12,6 +12,8 @@
    happened, any number of failing ops, failing ops that did or did not reach the disk. -/
 import LdkModel.Proofs.MonPersister
 import LdkModel.Proofs.FsStore
+import LdkModel.Proofs.FsFault
+import LdkModel.Proofs.FsFaultEv
 import LdkModel.Proofs.MonPersisterMulti
 namespace Ldk.C19
 open Ldk Ldk.Kv Ldk.MonP Ldk.Persist Ldk.Fs
@@ -431,6 +433,122 @@ theorem async_equals_sequential {ν : Type} (ue : Bool) (fs0 : FS ν) (ops : Lis
 /-- non-vacuity: the example of `async_last_issued_wins` run through the sync API gives the same files -/
 example : (runSeq true (fresh ([] : FS Nat)) [.write ("n", "", "k") 1, .remove ("n", "", "k") true, .write ("n", "", "k") 3, .write ("n", "", "k2") 7]).fs =
     [(("n", "[empty]", "k2"), .data 7), (("n", "[empty]", "k"), .data 3)] := by decide
+
+/-- `async_faulty_last_ok_wins` (ORDER UNDER CONCURRENCY **with failing store operations**). Issue ANY list
+    `ops` of async API calls on a store started over any directory, and let their bodies run to completion in
+    ANY order, each one with or without an I/O FAULT (`πf`: any permutation of the issued operations, each
+    paired with an arbitrary fault flag; a fault makes the first mutating file operation of the callback
+    that `execute_locked_write` runs — the `rename` of a write, the `remove_file` of a remove of a present
+    key — fail without effect, so the call returns `Err`). `fin.2` is the list of operations whose call
+    returned `Ok`. Then for EVERY valid key: either no operation on it returned `Ok` and it holds what it held
+    at the start; or it holds the result of `m`, the LAST ISSUED operation among those on this key that
+    RETURNED Ok (greatest version among them; versions are strictly increasing in issue order — third
+    conjunct). So an operation reported `Ok` is never lost to a FAILED later-issued one, and a failed
+    operation never makes an earlier-issued one that executes afterwards be skipped as stale. All lock
+    references are released. The result and the version bookkeeping of the locked block are the TRANSLATED
+    `FsConsts.lockedWrite` (tools/gen_fslocked.py, statement order included): recording the version before the
+    callback ran / regardless of its success (seeded C19-r5) makes `Fs.regF_cases` and hence this theorem
+    fail to compile. -/
+theorem async_faulty_last_ok_wins {ν : Type} (ue : Bool) (fs0 : FS ν) (ops : List (KvOp ν))
+    (πf : List (Pending ν × Bool)) (hπ : (πf.map (·.1)).Perm (issueAll ue (fresh fs0) ops).2) (k : Key) (hk : validKey k = true) :
+    (((∀ y ∈ (execAllF ((issueAll ue (fresh fs0) ops).1, []) πf).2, y.dest ≠ destPath ue k) ∧
+        readKey ue (execAllF ((issueAll ue (fresh fs0) ops).1, []) πf).1.fs k = readKey ue fs0 k) ∨
+      (∃ m ∈ (execAllF ((issueAll ue (fresh fs0) ops).1, []) πf).2, m ∈ (issueAll ue (fresh fs0) ops).2 ∧ m.dest = destPath ue k ∧
+        (∀ y ∈ (execAllF ((issueAll ue (fresh fs0) ops).1, []) πf).2, y.dest = destPath ue k → y.version ≤ m.version) ∧
+        readKey ue (execAllF ((issueAll ue (fresh fs0) ops).1, []) πf).1.fs k = m.result)) ∧
+    (lockOf (execAllF ((issueAll ue (fresh fs0) ops).1, []) πf).1 (destPath ue k)).refs = 0 ∧
+    (issueAll ue (fresh fs0) ops).2.Pairwise (fun a b => a.version < b.version) := by
+  obtain ⟨h1, _, h3, h4, h5⟩ := issueAll_spec ue ops (fresh fs0)
+  have hl0 : ∀ d, lockOf (fresh fs0) d = ⟨0, 0⟩ := fun d => by simp [lockOf, fresh, Store.get]
+  have hlocks : LocksOk (issueAll ue (fresh fs0) ops).1 (πf.map (·.1)) := by
+    intro d
+    have hperm : (onDest d (πf.map (·.1))).Perm (onDest d (issueAll ue (fresh fs0) ops).2) := hπ.filter _
+    rw [h3 d, hl0 d, hperm.length_eq]; simp
+  have hmem : ∀ e ∈ πf, e.1 ∈ (issueAll ue (fresh fs0) ops).2 := fun e he => hπ.subset (List.mem_map_of_mem he)
+  have hver : ∀ e ∈ πf, 0 < e.1.version := by
+    intro e he
+    have := (h4 e.1 (hmem e he)).1
+    have h1v : (fresh fs0).nextVersion = 1 := rfl
+    omega
+  have hinit : OkInv (destPath ue k) (readKey ue fs0 k) (πf.map (·.1)) ((issueAll ue (fresh fs0) ops).1, []) := by
+    left
+    refine ⟨fun y hy => by simp at hy, ?_, fun _ => ?_⟩
+    · show (issueAll ue (fresh fs0) ops).1.fs.get _ = _; rw [h1]; rfl
+    · show (lockOf (issueAll ue (fresh fs0) ops).1 _).lastWritten = 0; rw [h3, hl0]
+  obtain ⟨hinv, hrefs⟩ := execAllF_inv (destPath ue k) (dest_not_artifact hk) (readKey ue fs0 k) πf ((issueAll ue (fresh fs0) ops).1, []) hlocks hver hinit
+  refine ⟨?_, hrefs, h5⟩
+  rcases hinv with ⟨ha, hb, _⟩ | ⟨m, hm, hmd, hmax, hc, _⟩
+  · left; exact ⟨ha, hb⟩
+  · right
+    refine ⟨m, hm, ?_, hmd, hmax, hc⟩
+    rcases execAllF_oks_sub πf ((issueAll ue (fresh fs0) ops).1, []) m hm with h | h
+    · simp at h
+    · exact hπ.subset h
+
+/-- non-vacuity (the schedule of seeded C19-r5): two writes to `k` (1, then 2); the body of the 2nd runs first
+    and its rename FAILS (tmp file removed, call returns Err, NO version recorded), then the 1st runs: it
+    is not stale, takes effect and returns Ok — `k` holds 1, the Ok list is exactly the 1st write -/
+example : let t := issueAll true (fresh ([] : FS Nat)) [.write ("n", "", "k") 1, .write ("n", "", "k") 2]
+    let fin := execAllF (t.1, []) ((t.2.drop 1).map (fun x => (x, true)) ++ (t.2.take 1).map (fun x => (x, false)))
+    fin.1.fs = [(("n", "[empty]", "k"), .data 1)] ∧ fin.2.map (·.version) = [1] ∧ fin.1.locks = [] ∧
+    (execF t.1 (t.2.getD 1 ⟨("", "", ""), 0, .remove true⟩) true).2 = false := by decide
+
+/-- `async_faulty_any_history` (ORDER UNDER CONCURRENCY with failing store operations, ANY history). Take ANY
+    list of events on a store started over any directory: `call op` — an async API call is made (a valid
+    write/remove takes the next version and a reference to the per-path lock entry NOW, `Fs.issue`) — and
+    `complete v fault` — the body of the pending operation with version `v` runs to completion, with or
+    without an I/O fault (`Fs.execF`: result and version bookkeeping by the translated `lockedWrite`, then
+    `clean_locks`: the lock entry — and the version it records — is dropped exactly when no other issued
+    operation holds a reference). Calls and completions interleave ARBITRARILY: bodies may complete before
+    later operations are issued, operations may stay pending. Then at the end — hence, `evs` being arbitrary,
+    at EVERY point of every history — for EVERY valid key: either no operation on it has returned `Ok` and it
+    holds its initial contents, or it holds the result of the operation with the GREATEST VERSION (versions
+    are handed out in call order: the LAST ISSUED) among those on this key that have RETURNED Ok.
+    Generalises `async_faulty_last_ok_wins` (issue all, then complete all) to every history. -/
+theorem async_faulty_any_history {ν : Type} (ue : Bool) (fs0 : FS ν) (evs : List (AEv ν)) (k : Key) (hk : validKey k = true) :
+    ((∀ y ∈ (runA ue { st := fresh fs0 } evs).oks, y.dest ≠ destPath ue k) ∧
+      readKey ue (runA ue { st := fresh fs0 } evs).st.fs k = readKey ue fs0 k) ∨
+    (∃ m ∈ (runA ue { st := fresh fs0 } evs).oks, m.dest = destPath ue k ∧
+      (∀ y ∈ (runA ue { st := fresh fs0 } evs).oks, y.dest = destPath ue k → y.version ≤ m.version) ∧
+      readKey ue (runA ue { st := fresh fs0 } evs).st.fs k = m.result) := by
+  have hl0 : ∀ d, lockOf (fresh fs0) d = ⟨0, 0⟩ := fun d => by simp [lockOf, fresh, Store.get]
+  have hinit : AInv (destPath ue k) (readKey ue fs0 k) ({ st := fresh fs0 } : ASt ν) := by
+    refine ⟨fun d => by rw [hl0 d]; simp [onDest], by show 0 < Ldk.FsConsts.FIRST_VERSION; decide, fun x hx => by simp at hx, 0, ?_, ?_, ?_, ?_⟩
+    · left; exact ⟨rfl, fun y hy => by simp at hy, rfl⟩
+    · rw [hl0]; exact Nat.le_refl _
+    · show 0 < Ldk.FsConsts.FIRST_VERSION; decide
+    · intro x hx; simp at hx
+  obtain ⟨_, _, _, M, hM, _, _, _⟩ := ainv_run ue (destPath ue k) (dest_not_artifact hk) (readKey ue fs0 k) evs _ hinit
+  rcases hM with ⟨_, h1, h2⟩ | ⟨m, hm, hmd, hmv, hmax, hc⟩
+  · left; exact ⟨h1, h2⟩
+  · right; exact ⟨m, hm, hmd, fun y hy hyd => by rw [hmv]; exact hmax y hy hyd, hc⟩
+
+/-- non-vacuity: write 1 is called and completes (the lock entry is dropped: nobody else holds it); write 2 and
+    write 3 are called; 3 completes but its rename FAILS; 2 completes: `k` holds 2 — the last issued
+    operation that returned Ok — and the Ok list is [2, 1] (versions) -/
+def exHist : List (AEv Nat) :=
+  [.call (.write ("n", "", "k") 1), .complete 1 false, .call (.write ("n", "", "k") 2), .call (.write ("n", "", "k") 3),
+   .complete 3 true, .complete 2 false]
+example : (runA true { st := fresh ([] : FS Nat) } exHist).st.fs = [(("n", "[empty]", "k"), .data 2)] ∧
+    (runA true { st := fresh ([] : FS Nat) } exHist).oks.map (·.version) = [2, 1] ∧
+    (runA true { st := fresh ([] : FS Nat) } exHist).pend.length = 0 ∧
+    (runA true { st := fresh ([] : FS Nat) } exHist).st.locks = [] := by decide
+
+/-- `faulty_model_conservative`. With no fault injected the fault model IS the model of sections 6-7: for every
+    state and every list of issued operations, `execAllF` without faults ends in exactly the state of
+    `execAll` (file system, tmp counter, lock table) and every call returns Ok. So the hand-mirrored
+    version bookkeeping `Fs.finishLocks`, which `async_last_issued_wins` / `async_any_interleaving` /
+    `async_equals_sequential` are about, agrees with the TRANSLATED `FsConsts.lockedWrite` on every
+    fault-free run — those theorems are about the translated locked block too. -/
+theorem faulty_model_conservative {ν : Type} (st : St ν) (l : List (Pending ν)) (acc : List (Pending ν)) :
+    execAllF (st, acc) (l.map (fun x => (x, false))) = (execAll st l, l.reverse ++ acc) ∧
+    ∀ x : Pending ν, execF st x false = (exec st x, true) :=
+  ⟨execAllF_nofault l st acc, execF_nofault st⟩
+
+/-- non-vacuity: the example of `async_last_issued_wins` through the fault model without faults -/
+example : let t := issueAll true (fresh ([] : FS Nat)) [.write ("n", "", "k") 1, .remove ("n", "", "k") true, .write ("n", "", "k") 3]
+    (execAllF (t.1, []) ((t.2.drop 2 ++ t.2.take 2).map (fun x => (x, false)))).1.fs = [(("n", "[empty]", "k"), .data 3)] ∧
+    (execAllF (t.1, []) ((t.2.drop 2 ++ t.2.take 2).map (fun x => (x, false)))).2.map (·.version) = [2, 1, 3] := by decide
 
 /-! ## 8. several monitors, archiving, reading everything back -/
 
